@@ -85,6 +85,32 @@ fn refusals<C: CI>(ctx: &mut Ctx, s: &SeqSlice<C>, n: usize, what: &str) {
     if n > 0 {
         t(ctx, "a..=b", observe(|| s[n - 1..=n].len()));
     }
+    // far beyond the end: indices whose bit position overflows the machine word must not wrap
+    // around into the sequence (release builds have no overflow checks)
+    let b = C::BITS as usize;
+    for far in [usize::MAX, usize::MAX - 1, usize::MAX / b, (usize::MAX / b).saturating_add(1), 1usize << 63, (1usize << 63) + 1, ((1usize << 63) / b).saturating_mul(2), (1usize << 62) + 2, usize::MAX / b / 2 + 2] {
+        if far <= n + pw {
+            continue; // (1-bit codec: some of these are ordinary indices)
+        }
+        t(ctx, "[i]-far", observe(|| s[far].len()));
+        t(ctx, "nth-far", observe(|| { let _ = s.nth(far); 1 }));
+        t(ctx, "a..-far", observe(|| s[far..].len()));
+        t(ctx, "..b-far", observe(|| s[..far].len()));
+        t(ctx, "..=b-far", observe(|| s[..=far].len()));
+        t(ctx, "a..=b-far", observe(|| s[0..=far].len()));
+        t(ctx, "a..b-far", observe(|| s[0..far].len()));
+        if let Some(f1) = far.checked_add(1) {
+            t(ctx, "a..b-far", observe(|| s[far..f1].len()));
+        }
+        t(ctx, "a..=b-far", observe(|| s[far..=far].len()));
+        ctx.eval();
+        // the optional accessor returns nothing (it must not panic either: None is what the statement promises)
+        match observe(|| s.get(far).is_none()) {
+            Ok(true) => {}
+            Ok(false) => check!(ctx, false, format!("get-oob|{name}|returns-symbol-far"), "{what}: get({far:#x}) on {n} symbols returned a symbol"),
+            Err(pm) => check!(ctx, false, format!("get-oob|{name}|panics-far"), "{what}: get({far:#x}) panicked instead of returning None: {pm}"),
+        }
+    }
 }
 
 fn run<C: CI>(ctx: &mut Ctx) {
@@ -178,7 +204,7 @@ fn run<C: CI>(ctx: &mut Ctx) {
             if ctx.over() {
                 break;
             }
-            let len = if ctx.lite { ctx.rng.range(1, pw + 3) } else { ctx.rng.range(1, 3 * pw + 2) };
+            let len = if ctx.lite { ctx.rng.range(1, pw + 3) } else if r % 25 == 24 { long_lengths(a.bits)[(r / 25) % long_lengths(a.bits).len()] } else { ctx.rng.range(1, 3 * pw + 2) };
             let pad = ctx.rng.below(noff);
             let codes = rand_codes(&mut ctx.rng, a, len);
             let p = Padded::<C>::new(&mut ctx.rng, pad, &codes, 2);
@@ -271,6 +297,6 @@ fn main() {
     run_main("C03", |ctx| {
         for_each_codec!(run, ctx);
         statics(ctx);
-        ctx.note("rule", json!("per codec: windows of every boundary length class (0..2.5 words) placed at varying (thorough: all) achievable bit offsets inside a larger parent; for each, ALL (a,b) with 0<=a<=b<=len through every range form able to express them (a..b, a..=b, ..b, ..=b, a.., .., [i]) plus nth/get; every out-of-bounds form with b in {len+1, len+2, len+symbols-per-word} must panic (get -> None); random nested re-slicing of depth 2-3; owned receivers and static literals. Distinct = (codec, form, head bit, a, b, len) resp. (codec, content, nesting trail); all non-trivial."));
+        ctx.note("rule", json!("per codec: windows of every boundary length class (0..2.5 words) placed at varying (thorough: all) achievable bit offsets inside a larger parent; for each, ALL (a,b) with 0<=a<=b<=len through every range form able to express them (a..b, a..=b, ..b, ..=b, a.., .., [i]) plus nth/get; every out-of-bounds form with b in {len+1, len+2, len+symbols-per-word} and with far indices (usize::MAX, usize::MAX/BITS(+1), 2^63(+1), 2^62+2, ... whose bit position overflows) must panic (get -> None); random nested re-slicing of depth 2-3; owned receivers and static literals. Distinct = (codec, form, head bit, a, b, len) resp. (codec, content, nesting trail); all non-trivial."));
     });
 }
